@@ -440,15 +440,14 @@ async def islice(
     if step <= 0:
         raise ValueError(step_message)
 
-    if stop == 0 or start == stop:
-        await checkpoint()
-        return
-
+    # Like itertools.islice(), skip (consume) the first ``start`` elements even when
+    # start >= stop and nothing is going to be yielded
+    limit = None if stop is None else max(start, stop)
     iterator = _iterate(iterable)
     index = 0
     element_yielded = False
 
-    while stop is None or index < stop:
+    while limit is None or index < limit:
         try:
             element = await anext(iterator)
         except StopAsyncIteration:
